@@ -1157,15 +1157,18 @@ class OpenFlow_01_Task (Task):
         do_close = True # Close this socket?
 
         sock_error = None
-        if sys.exc_info()[0] is socket.error:
-          sock_error = sys.exc_info()[1][0]
+        if isinstance(sys.exc_info()[1], socket.error):
+          sock_error = sys.exc_info()[1].errno
 
         if con is listener:
           do_close = False
           if sock_error == ECONNRESET:
-            con.info("Connection reset")
+            log.info("Connection reset")
           elif sock_error == EMFILE:
             log.error("Couldn't accept connection: out of file descriptors.")
+          elif sock_error is not None:
+            # accept() also passes on errors of the new connection
+            log.warning("Couldn't accept connection: %s", sys.exc_info()[1])
           else:
             do_close = True
             log_tb()
